@@ -132,6 +132,25 @@ def run(ctx):
                     fails.append(("exit-vs-tree", "%s: exit status %d (summary %s), but processing met an error and the documented contract says %s" % (label, rc, s, "fail" if want_truth else "succeed"), label))
                 if s is not None and s["errors"] == 0:
                     fails.append(("error-not-counted", "%s: an error occurred but the summary reports %s" % (label, s), label))
+        # nothing wrong at all, but a path longer than a kilobyte: every mode succeeds, with and without workers
+        for brp, check, par in itertools.product([False, True], repeat=3):
+            sub = "long%d%d%d" % (brp, check, par)
+            t.add_file(sub + "/" + "/".join("d%d-" % k + "y" * 180 for k in range(6)) + "/clean.a", fc.ar([("x.o/", 5, 0, 0, 100644, b"ab")]))
+            t.add_file(sub + "/clean.gz", fc.gz(5))
+            args, env = [], {}
+            if brp:
+                args.append("--brp")
+                env["RPM_BUILD_ROOT"] = t.root
+            if check:
+                args.append("--check")
+            if par:
+                args.append("-j2")
+            rc, out = fh.run_cli(args + [t.path(sub)], epoch=samples.EPOCH, env_extra=env, timeout=60)
+            s = fh.parse_summary(out)
+            label = "%s%s%s clean files, one below a very long path" % ("--brp " if brp else "", "--check " if check else "", "-j2 " if par else "")
+            extra.append(label)
+            if rc != 0 or s is None or s["errors"] != 0:
+                fails.append(("exit-vs-tree", "%s: exit status %d (summary %s), but the tree is clean and the documented contract says succeed" % (label, rc, s), label))
         cf = os.path.join(ctx.tmp, "verdict.txt")
         open(cf, "w").write("\n".join(vlines) + "\n")
         rcm, mout = sh([model_bin(), cf, "debug", "cfg"], timeout=120)
